@@ -212,6 +212,23 @@ def run_case(c):
                 p = ["with the aioswitcher logger at DEBUG"] + p
             if p:
                 return {"ok": False, "evaluations": n + 1, "detail": p, "case": {"prop": "C18", "kind": "history", "inputs": {"api": kind, "seq": seq}}}
+        # fixed histories with the loggers at DEBUG: a second disconnect, a disconnect after a refused re-connect, after a device reset
+        import logging
+        lg = logging.getLogger("aioswitcher")
+        old_level, old_handlers = lg.level, list(lg.handlers)
+        lg.setLevel(logging.DEBUG)
+        lg.addHandler(logging.NullHandler())
+        try:
+            for kind in (1, 2):
+                for seq in (["connect_ok", "op_ok", "disconnect", "disconnect", "connect_ok", "disconnect"], ["connect_ok", "connect_refused", "disconnect", "disconnect"],
+                            ["enter", "op_ok", "op_raise", "op_raise", "op_raise", "leave_exc", "disconnect"]):
+                    p = asyncio.run(run_history(kind, seq))
+                    if p:
+                        return {"ok": False, "evaluations": i["n"] + 1, "detail": ["with the aioswitcher logger at DEBUG"] + p,
+                                "case": {"prop": "C18", "kind": "history", "inputs": {"api": kind, "seq": seq}}}
+        finally:
+            lg.setLevel(old_level)
+            lg.handlers[:] = old_handlers
         # a talkative device: it sends 3 KiB more than the client reads with every answer; leaving must still look like end-of-stream to it
         for kind in (1, 2):
             p = asyncio.run(run_history(kind, ["connect_ok", "op_ok", "op_ok", "op_ok", "disconnect", "enter", "op_ok", "op_ok", "leave"], flood=True))
